@@ -32,6 +32,16 @@ class Res(wiring.Component):
         super().__init__({})
 
 
+class FalsyRes(wiring.Component):
+    """A resource whose truth value is False (a container-like peripheral model that is still empty): the memory
+    map identifies resources by identity, never by truth value."""
+    def __init__(self):
+        super().__init__({})
+
+    def __len__(self):
+        return 0
+
+
 def n_cases(tier):
     return 2000 if tier == "quick" else 30000
 
@@ -107,7 +117,7 @@ def run_case(case):
                 except ValueError:
                     pass
             if kind == "res":
-                r = Res()
+                r = Res() if rng.random() < 0.85 else FalsyRes()
                 size = rng.choice([1, 1, 2, 3, 4, max(1, (1 << aw) // rng.choice([2, 4, 8, 16]))])
                 addr = None
                 if rng.random() < 0.3:
